@@ -324,7 +324,12 @@ func (rp *rprog) runExec(xi int, modelInv int, modelTimeouts int) (log []entry, 
 	case "#":
 		ctx = context.WithValue(ctx, cachepolicy.CacheKey, 42)
 	}
-	ex := failsafe.NewExecutor[int](rp.pols...).WithContext(ctx)
+	// the completion listeners are registered after WithContext on even executions and before it on odd ones (the executor
+	// returned by WithContext inherits what was registered on the one it was derived from)
+	ex := failsafe.NewExecutor[int](rp.pols...)
+	if xi%2 == 0 {
+		ex = ex.WithContext(ctx)
+	}
 	if rp.prog.ExecLis&1 != 0 {
 		ex = ex.OnSuccess(func(e failsafe.ExecutionDoneEvent[int]) {
 			l.add("verdict", "exec.success")
@@ -345,6 +350,9 @@ func (rp *rprog) runExec(xi int, modelInv int, modelTimeouts int) (log []entry, 
 			l.add("events", "exec.done "+odesc(e.Result, e.Error))
 			l.add("stats", "exec.done "+statsOf(e))
 		})
+	}
+	if xi%2 != 0 {
+		ex = ex.WithContext(ctx)
 	}
 	var inv atomic.Int64
 	var blocked atomic.Int64
